@@ -165,7 +165,10 @@ def coq_cb(mode):
 def vm_note(ctx, term, reply):
     """remember a small case (Gallina term, binary's reply); every VM_BATCH cases (first batch only per run) the same
     terms are evaluated by vm_compute inside Coq and must agree with the extracted binary"""
-    st = ctx.notes.setdefault("dsf_vm", {"cases": [], "done": False})
+    st = getattr(ctx, "_dsf_vm", None)
+    if st is None:
+        st = {"cases": [], "done": False}
+        setattr(ctx, "_dsf_vm", st)
     if st["done"]:
         return
     st["cases"].append((term, reply))
